@@ -23,8 +23,7 @@ impl<'a> PrettyPrinter<'a> {
             if math.to_untyped().children().len() == 0 {
                 return Option::None;
             }
-            let has_trailing_linebreak = (math.exprs().last())
-                .is_some_and(|expr| matches!(expr, Expr::Linebreak(_)))
+            let has_trailing_linebreak = ends_with_linebreak(math.to_untyped())
                 && (equation.to_untyped().children().nth_back(1))
                     .is_some_and(|it| it.kind() == SyntaxKind::Space)
                 && (equation.to_untyped().children().nth_back(2))
@@ -200,4 +199,11 @@ impl<'a> PrettyPrinter<'a> {
             }
         })
     }
+}
+
+/// Whether the last token of the node is a `\` line break, however deep it is nested
+/// (`$(a \ $`: the unclosed parenthesis nests the body once more).
+fn ends_with_linebreak(node: &SyntaxNode) -> bool {
+    (node.children().last())
+        .is_some_and(|last| last.kind() == SyntaxKind::Linebreak || ends_with_linebreak(last))
 }
